@@ -6,7 +6,7 @@ helpers (through the C implementation of bisect) and HitResult accessors; oracle
 import math
 
 from symx.runner import harness
-from harness.common import pybc, mkrow, index_of, DIST_UNITS, VEL_UNITS
+from harness.common import pybc, mkrow, index_of, DIST_UNITS, VEL_UNITS, with_preferred
 from ref import si
 
 FUNCS = ['py_ballisticcalc.helpers.*', 'py_ballisticcalc.trajectory_data._trajectory_data.HitResult.index_at_distance',
@@ -141,6 +141,20 @@ def c20_distance(ctx, n, unit):
         ctx.check('accessor_row', want2 >= 0 and row is rows[want2])
     except ArithmeticError:
         ctx.check('accessor_row', want2 < 0)
+    # the same result object asked again after the PREFERRED distance unit changed (and with the request displayed in yet another unit):
+    # the answer is about magnitudes, not about the unit in force at the first look-up
+    U2 = getattr(p.Unit, DIST_UNITS[(DIST_UNITS.index(unit) + 3) % len(DIST_UNITS)])
+    U3 = getattr(p.Unit, DIST_UNITS[(DIST_UNITS.index(unit) + 6) % len(DIST_UNITS)])
+    with with_preferred(distance=U2):
+        got3 = hr.index_at_distance(U(q) << U3)
+        ctx.check('accessor_first_distance', got3 == want2, info={'got': got3, 'want': want2, 'after': 'preferred unit changed'})
+        try:
+            row = hr.get_at_distance(U(q))
+            ctx.check('accessor_row', want2 >= 0 and row is rows[want2], info={'after': 'preferred unit changed'})
+        except ArithmeticError:
+            ctx.check('accessor_row', want2 < 0, info={'after': 'preferred unit changed'})
+    got4 = hr.index_at_distance(dq)
+    ctx.check('accessor_first_distance', got4 == want2, info={'got': got4, 'want': want2, 'after': 'preferred unit changed back'})
     # every other result accessor that looks a row up by distance: the danger-space query centres on the same row
     try:
         ds = hr.danger_space(dq, p.Distance.Foot(0.0), p.Angular.Radian(0.0))
